@@ -1114,7 +1114,10 @@ class C02(Prop):
                     "{m} = '{leaf}\n{m|$1 x}'\n{leaf} = '# L'\n{m|a}", "{m} = '{leaf}\n// c\n{m|$1 x}\n# t'\n{leaf} = '# L\n## M'\n{m|a}",
                     # two levels of nested expansion before the recursive invocation (every enclosing end must move)
                     "{h}='# h'\n{w}='\\{h}'\n{a}='\\{w}\n\\{b}'\n{b}='\\{w}\n\\{a}'\n{a}",
-                    "{h}='hello'\n{a}='\\{h}\n\n\\{b}'\n{b}='\\{a}'\n{a}"]:
+                    "{h}='hello'\n{a}='\\{h}\n\n\\{b}'\n{b}='\\{a}'\n{a}",
+                    # recursion through container blocks (each container's content has a reader of its own: F36)
+                    "{a} = '..\n\\{b}\n..'\n{b} = '...\n\\{a}\n...'\n{a}", "{a} = '\"\"\n\\{a}\n\"\"'\n{a}",
+                    "{a} = '..\n# t\n\\{b}\n..'\n{b} = '>>\n\\{c}\n>>'\n{c} = '....\n\\{a}\n....'\n{a}"]:
             out.append({'kind': 'macro', 'src': src, 'safeMode': 0, 'must_finish': True})
         size = 4096 if ctx.tier == 'quick' else 8192
         for unit in ['<a|', '<a@b|', '<image:a|']:
